@@ -186,7 +186,9 @@ func genC04(cs *CaseSet, rng *Rng, tier string, dir string) {
 			sem <- struct{}{}
 			defer func() { <-sem }()
 			// ---- account table ----
-			pws := [][]byte{{}, []byte("pw"), obfuscate([]byte("secret")), bytes.Repeat([]byte("x"), 72), {0x9e, 0x00, 0x9e}, []byte("a longer pass phrase, with spaces"), bytes.Repeat([]byte{0xab}, 71)}
+			pws := [][]byte{{}, []byte("pw"), obfuscate([]byte("secret")), bytes.Repeat([]byte("x"), 72), {0x9e, 0x00, 0x9e}, []byte("a longer pass phrase, with spaces"), bytes.Repeat([]byte{0xab}, 71),
+				// beyond bcrypt's 72-byte limit HashAndSalt stores an EMPTY hash: no password opens such an account
+				bytes.Repeat([]byte("L"), 73), bytes.Repeat([]byte{0x7f}, 100)}
 			logins := []string{"admin", "bob", "Bob", "zo\xc3\xab", "carol", "x"}
 			var accts []c04Acct
 			noGuest := rng.Intn(3) == 0
@@ -264,7 +266,13 @@ func genC04(cs *CaseSet, rng *Rng, tier string, dir string) {
 				login := []byte(a.login)
 				pw := append([]byte{}, a.pw...)
 				want := "good"
-				switch rng.Intn(12) {
+				pick := rng.Intn(12)
+				if len(pw) > 72 && rng.Bool() { // an account with an empty stored hash: the empty password must not open it
+					pw = []byte{}
+					want = "bad"
+					pick = 0
+				}
+				switch pick {
 				case 0, 1, 2, 3: // the account's password
 				case 4:
 					pw = append(pw, 'x')
